@@ -128,11 +128,14 @@ func TestSymHammer(t *testing.T) {
 	for _, s := range refcrypto.SymSpecs {
 		algs = append(algs, s.Name)
 	}
-	// one case = one pass over every algorithm name (and the mixed cast), each with drawn parameters
-	vk.Check(t, 2, 60, func(rt *rapid.T) {
+	// one case = one pass over every algorithm name (and the mixed cast), each with drawn parameters.
+	// Budget: under the race detector one pass costs about 0.5 CPU-minutes per 1000 iterations; the thorough tier runs
+	// 16 shards at once on the same processors, so it gets one pass of 10000 iterations per shard (about 5 minutes of wall
+	// time for all of them; 60 passes of 40000 iterations were 20 CPU-minutes each and never finished within the tier's deadline).
+	vk.Check(t, 2, 16, func(rt *rapid.T) {
 		for _, alg := range algs {
 			c := hammerCase{Alg: alg, Goroutines: rapid.SampledFrom([]int{4, 8, 8, 16}).Draw(rt, "goroutines"),
-				Iter: vk.Pick(3000, 40000), PtLen: rapid.SampledFrom([]int{0, 16, 24, 100, 1000}).Draw(rt, "ptLen"), Seed: rapid.Uint64().Draw(rt, "seed")}
+				Iter: vk.Pick(3000, 10000), PtLen: rapid.SampledFrom([]int{0, 16, 24, 100, 1000}).Draw(rt, "ptLen"), Seed: rapid.Uint64().Draw(rt, "seed")}
 			var ops int64
 			var failure string
 			vk.Guard("C08 "+c.String(), func() { ops, failure = runHammer(c) })
